@@ -74,6 +74,10 @@ fn s2k_lib(s: &S2k) -> StringToKey {
     }
 }
 
+pub fn lib_params_pub(p: &LockParams, n: u8) -> S2kParams {
+    lib_params(p, n)
+}
+
 fn lib_params(p: &LockParams, n: u8) -> S2kParams {
     let (bs, _) = cm::sym_params(p.sym).expect("cipher");
     if p.usage == 253 {
